@@ -279,6 +279,13 @@ def check_absorption(mm, rep):
             )
             if has_conflict and k not in ("Conflict",):
                 conflict_diag[k] = arm
+    # classes whose K x K arm unifies components (emits equalities): dropping one K before it meets another K loses that
+    # unification, which is just as order-dependent as a lost conflict
+    equating_diag = {}
+    for k in mm.variants:
+        for arm in mm.select(k, k):
+            if any(F.strip_generics(F.callee_def(c) or "").endswith("unification::Equality::new") for c, _ in F.calls(arm.node["body"])) and k not in ("Conflict",):
+                equating_diag[k] = arm
     n = 0
     for arm in mm.arms:
         if arm.delegate:
@@ -319,7 +326,7 @@ def check_absorption(mm, rep):
                             continue
                         n += 1
                         for X in sorted(side_sets):
-                            inconsistent = K in conflict_diag
+                            inconsistent = K in conflict_diag or K in equating_diag
                             # conditions on the path (guards / ifs) are listed for the report
                             conds = list(inner_conds)
                             if arm.guard:
@@ -330,12 +337,22 @@ def check_absorption(mm, rep):
                                 if "pat" in anc and key == "body" and anc is not arm.node:
                                     pv = F.pat_variants(anc["pat"])
                                     conds.append("match " + ("|".join(sorted(v for _, v in pv)) if pv else "_"))
+                            if K not in conflict_diag and K in equating_diag:
+                                # an empty component list has nothing to unify: dropping it loses nothing
+                                if any("is_empty" in c for c in conds):
+                                    continue
+                                # the kept side named by a constant constructor is that constructor only
+                                if t[0] == "path" and str(t[1]).split("::")[-1] != X:
+                                    continue
+                                akey = f"absorb-eq:{X}x{K}"
+                            else:
+                                akey = f"absorb:{X}x{K}[{' & '.join(conds) or 'always'}]"
                             rep.oblige(
                                 not inconsistent,
                                 "R16.3",
-                                f"absorb:{X}x{K}[{' & '.join(conds) or 'always'}]",
+                                akey,
                                 F.loc(node["span"]),
-                                f"merge({X}, {K}) returns the {X} unchanged and drops the {K} evidence (when {' and '.join(conds) or 'always'}), but {K} x {K} can conflict (arm at {conflict_diag[K].where() if K in conflict_diag else '-'}): merge(merge({X.lower()},k1),k2) keeps the {X} while merge({X.lower()},merge(k1,k2)) is a conflict — the outcome depends on grouping and therefore on set iteration order",
+                                (f"merge({X}, {K}) returns the {X} unchanged and drops the {K} evidence (when {' and '.join(conds) or 'always'}), but {K} x {K} can conflict (arm at {conflict_diag[K].where() if K in conflict_diag else '-'}): merge(merge({X.lower()},k1),k2) keeps the {X} while merge({X.lower()},merge(k1,k2)) is a conflict — the outcome depends on grouping and therefore on set iteration order" if K in conflict_diag else f"merge({X}, {K}) returns the {X} unchanged and drops the {K} evidence (when {' and '.join(conds) or 'always'}), but {K} x {K} unifies the components of the two {K}s (arm at {equating_diag[K].where()}): whether two {K}s in one class ever meet - and their components get unified - depends on the order of the fold"),
                                 sample={"rule": "R16.3", "arm": arm.label(), "keeps": X, "drops": K, "conditions": conds},
                             )
     rep.extra["absorbing_paths_examined"] = n
